@@ -89,6 +89,11 @@ type AsmState struct {
 	ret   []int // return stack of in-program calls
 	Steps int
 	Trace []int
+	// Lenient: memory this window does not model is angelic: a load through an address that is not
+	// a modelled object (or through Watch with an index register) yields a fresh arbitrary value,
+	// a store there is dropped. Sound for checks that only constrain addresses, not contents.
+	Lenient bool
+	Watch   string
 }
 
 type AsmHooks struct {
@@ -167,7 +172,51 @@ func (x *Exec) asmEA(st *AsmState, o *AsmOperand) Value {
 }
 
 func (x *Exec) asmLoadMem(p *AsmProg, st *AsmState, o *AsmOperand, size int) Value {
+	if o.R != "" {
+		if ca, ok := st.R[o.R].(codeAddr); ok {
+			// load from a jump table inside the program: entry k of the LONG list after the label
+			if o.X == "" || o.S != 4 || size != 4 {
+				x.notEncoded("asm: unsupported access to in-program data")
+			}
+			k := int(int64(x.Concretize(x.asmTerm(x.asmReg(st, o.X))))) + int(o.O)/4
+			ei := ca.idx + 1 + k
+			if k < 0 || ei >= len(p.Ins) || p.Ins[ei].Op != "LONG" {
+				x.check(x.st.False, "assert", "generated code indexes a jump table out of range")
+				x.abort(abEnd, "table")
+			}
+			if p.Ins[ei].Xref == "" {
+				return x.st.Const(32, 0)
+			}
+			t, ok := p.labels[p.Ins[ei].Xref]
+			if !ok {
+				x.notEncoded("asm: jump table entry refers to an unknown label")
+			}
+			return codeRel{table: ca.idx, target: t}
+		}
+	}
+	if st.Lenient && o.R == st.Watch && o.X != "" {
+		return x.junk(size * 8)
+	}
 	ea := x.asmEA(st, o)
+	if sa, ok := ea.(SymAddr); ok && strings.HasPrefix(sa.Name, "var.") {
+		return x.junk(size * 8) // a runtime variable: any value
+	}
+	if st.Lenient {
+		switch a := ea.(type) {
+		case Ptr:
+			if a.Obj == nil && !(a.Off.IsConst() && p.Mem[fmt.Sprint(a.Off.Val)] != "") {
+				return x.junk(size * 8)
+			}
+		case *smt.Term:
+			if !(a.IsConst() && p.Mem[fmt.Sprint(a.Val)] != "") {
+				return x.junk(size * 8)
+			}
+		case SymAddr:
+			if p.Mem[fmt.Sprint(a.Addr)] == "" {
+				return x.junk(size * 8)
+			}
+		}
+	}
 	switch a := ea.(type) {
 	case Ptr:
 		if a.Obj == nil {
@@ -209,8 +258,14 @@ func (x *Exec) asmLoadAbs(p *AsmProg, addr uint64, size int) Value {
 }
 
 func (x *Exec) asmStoreMem(st *AsmState, o *AsmOperand, size int, v Value) {
+	if st.Lenient && o.R == st.Watch && o.X != "" {
+		return
+	}
 	ea := x.asmEA(st, o)
 	a, ok := ea.(Ptr)
+	if st.Lenient && (!ok || a.Obj == nil) {
+		return
+	}
 	if !ok || a.Obj == nil {
 		x.check(x.st.False, "memory", "generated code stores through a non-pointer address")
 		x.abort(abEnd, "memory")
@@ -405,6 +460,12 @@ func (x *Exec) RunAsm(p *AsmProg, st *AsmState, hooks AsmHooks, maxSteps int) st
 			if !ok {
 				x.notEncoded("asm: CALL through %T", tv)
 			}
+			if strings.Contains(sym.Name, "runtime.gcWriteBarrier") {
+				// the write-barrier entry points preserve every register and return a pointer
+				// to buffer slots in R11
+				st.R["R11"] = Ptr{Obj: x.newObject(64, nil, "wbuf"), Off: x.c64(0)}
+				break
+			}
 			if hooks.OnCall == nil || !hooks.OnCall(st, sym) {
 				x.notEncoded("asm: call of %s has no model", sym.Name)
 			}
@@ -433,7 +494,12 @@ func (x *Exec) RunAsm(p *AsmProg, st *AsmState, hooks AsmHooks, maxSteps int) st
 			x.asmSet(st, &in.T, 8, s.ZExt(x.asmTerm(x.asmGet(p, st, &in.F, sz)), 64))
 		case op == "MOVBQSX" || op == "MOVWQSX" || op == "MOVLQSX":
 			sz := asmSizes[op[3]]
-			x.asmSet(st, &in.T, 8, s.SExt(x.asmTerm(x.asmGet(p, st, &in.F, sz)), 64))
+			v := x.asmGet(p, st, &in.F, sz)
+			if cr, ok := v.(codeRel); ok {
+				st.R[in.T.R] = cr
+				break
+			}
+			x.asmSet(st, &in.T, 8, s.SExt(x.asmTerm(v), 64))
 		case op == "LEAQ":
 			x.asmSet(st, &in.T, 8, x.asmEA(st, &in.F))
 		case op == "XCHGQ":
@@ -444,6 +510,14 @@ func (x *Exec) RunAsm(p *AsmProg, st *AsmState, hooks AsmHooks, maxSteps int) st
 			sz := asmSizes[op[3]]
 			a := x.asmGet(p, st, &in.T, sz)
 			bv := x.asmGet(p, st, &in.F, sz)
+			if cr, ok := a.(codeRel); ok {
+				if ca, ok := bv.(codeAddr); ok && ca.idx == cr.table && op == "ADDQ" {
+					st.R[in.T.R] = codeAddr{cr.target}
+					st.fl = asmFlags{}
+					break
+				}
+				x.notEncoded("asm: arithmetic on a jump-table entry")
+			}
 			if ap, ok := a.(Ptr); ok && ap.Obj != nil {
 				// pointer arithmetic (SP adjustment, cursor advance)
 				if bp, ok := bv.(Ptr); ok && bp.Obj == ap.Obj && op == "SUBQ" {
@@ -488,6 +562,10 @@ func (x *Exec) RunAsm(p *AsmProg, st *AsmState, hooks AsmHooks, maxSteps int) st
 			sz := asmSizes[op[4]]
 			a, b := x.asmGet(p, st, &in.F, sz), x.asmGet(p, st, &in.T, sz)
 			if ap, ok := a.(Ptr); ok && ap.Obj != nil {
+				st.fl = asmFlags{cf: s.False, zf: s.False, sf: s.False, of: s.False, pf: s.False}
+				break
+			}
+			if _, ok := a.(codeRel); ok {
 				st.fl = asmFlags{cf: s.False, zf: s.False, sf: s.False, of: s.False, pf: s.False}
 				break
 			}
@@ -624,6 +702,14 @@ func (x *Exec) RunAsm(p *AsmProg, st *AsmState, hooks AsmHooks, maxSteps int) st
 				next = st.PC + 3
 				break
 			}
+			// LEAQ table(PC), DI  (48 8d 3d rel32 with the rel32 cross-referenced to a label)
+			if op == "WORD" && uint16(in.F.O) == 0x8d48 && st.PC+2 < len(p.Ins) && p.Ins[st.PC+1].Op == "BYTE" && uint8(p.Ins[st.PC+1].F.O) == 0x3d && p.Ins[st.PC+2].Op == "LONG" && p.Ins[st.PC+2].Xref != "" {
+				if t, ok := p.labels[p.Ins[st.PC+2].Xref]; ok {
+					st.R["DI"] = codeAddr{t}
+					next = st.PC + 3
+					break
+				}
+			}
 			x.notEncoded("asm: raw data %s $%d in the instruction stream", op, in.F.O)
 		case op == "UD2":
 			x.check(s.False, "assert", "generated code reaches UD2")
@@ -637,6 +723,9 @@ func (x *Exec) RunAsm(p *AsmProg, st *AsmState, hooks AsmHooks, maxSteps int) st
 
 // codeAddr is the address of an instruction of the program itself (LEAQ pc tricks, jump tables).
 type codeAddr struct{ idx int }
+
+// codeRel is a jump-table entry: the distance from the table to a target instruction.
+type codeRel struct{ table, target int }
 
 func NewAsmState() *AsmState {
 	return &AsmState{R: map[string]Value{}, X: map[string]*smt.Term{}}
